@@ -6,6 +6,7 @@ import Pyunicorn.Generated.StructC16
 import Pyunicorn.Lemmas.EventsObject
 import Pyunicorn.Lemmas.EventsF32
 import Pyunicorn.Lemmas.EventsF64
+import Pyunicorn.Lemmas.EventsF64Matrix
 import Pyunicorn.Lemmas.EventsNpQuantile
 /-!
 # C16 — Event synchronisation / coincidence follow their counting rules
@@ -1848,5 +1849,221 @@ the sample `1` is lost -/
 example : makeEventMatrixD .dataInt [[0], [1], [2], [3]] 1 [.value] [some (3 / 2)] [some .below]
       ≠ makeEventMatrix [[0], [1], [2], [3]] 1 [.value] [some (3 / 2)] [some .below] := by
   decide +kernel
+
+/-! ## round 5: the float64 ES analysis matrix as a whole
+
+`esAnalysisF64` is the matrix of doubles `event_series_analysis(method='ES')` returns (the driver
+answers `esmatf64` with it and the harness compares every entry bit for bit).  Rounds 3 / 4
+proved the range over ℝ for the matrix and at float level for one pair; here the two are joined:
+every entry of the *float* matrix, for every `N`, every binary event matrix on strictly increasing
+time stamps (records of up to `2²⁴` samples), every window and lag, under all six
+symmetrisations. -/
+
+/-- the two directed entries `[i,j]`, `[j,i]` of the ES matrix with everything the float-level
+argument needs: both NaN, or two half-integer counts in `[0, √m]` over one shared norm
+`1 ≤ m ≤ 2⁴⁸` -/
+def GoodPairF (p q : ESEntry) : Prop :=
+  (p = none ∧ q = none) ∨ ∃ a b m, p = some (a, m) ∧ q = some (b, m) ∧ (1 ≤ m ∧ m ≤ 2 ^ 48) ∧
+    (0 ≤ a ∧ a ^ 2 ≤ (m : Rat) ∧ ∃ k : Nat, a = (k : Rat) / 2) ∧
+    (0 ≤ b ∧ b ^ 2 ≤ (m : Rat) ∧ ∃ k : Nat, b = (k : Rat) / 2)
+
+theorem goodPairF_symm {p q : ESEntry} (h : GoodPairF p q) : GoodPairF q p := by
+  rcases h with ⟨h1, h2⟩ | ⟨a, b, m, h1, h2, hm, ha, hb⟩
+  · exact Or.inl ⟨h2, h1⟩
+  · exact Or.inr ⟨b, a, m, h2, h1, hm, hb, ha⟩
+
+theorem goodPairF_zero : GoodPairF (some (0, 1)) (some (0, 1)) :=
+  Or.inr ⟨0, 0, 1, rfl, rfl, ⟨le_refl _, by norm_num⟩, ⟨le_refl _, by norm_num, 0, by norm_num⟩,
+    ⟨le_refl _, by norm_num, 0, by norm_num⟩⟩
+
+theorem esPairEntry_goodF (ts1 ts2 : List Rat) (bx by_ : List Bool) (tm : Option Rat) (lag : Rat)
+    (h1 : List.Pairwise (· < ·) ts1) (h2 : List.Pairwise (· < ·) ts2)
+    (hl1 : ts1.length ≤ 2 ^ 24) (hl2 : ts2.length ≤ 2 ^ 24) :
+    GoodPairF (esPairEntry (esSeries ts1 bx ts2 by_ tm lag)).1
+      (esPairEntry (esSeries ts1 bx ts2 by_ tm lag)).2 := by
+  cases hr : esSeries ts1 bx ts2 by_ tm lag with
+  | nan => exact Or.inl ⟨rfl, rfl⟩
+  | zero => exact goodPairF_zero
+  | val a b m =>
+    have hrng := esSeries_range ts1 ts2 bx by_ tm lag h1 h2 a b m hr
+    have hr' : es (select ts1 bx) (select ts2 by_) tm lag = .val a b m := hr
+    obtain ⟨hm, hm1, hka, hkb⟩ := es_val_facts _ _ tm lag a b m hr'
+    have hm48 : m ≤ 2 ^ 48 := by
+      rw [hm]; exact norm_le_of_length ts1 ts2 bx by_ hl1 hl2
+    exact Or.inr ⟨a, b, m, rfl, rfl, ⟨hm1, hm48⟩,
+      ⟨hrng.1.1, by rw [pow_two]; exact hrng.1.2, hka⟩,
+      ⟨hrng.2.1, by rw [pow_two]; exact hrng.2.2, hkb⟩⟩
+
+/-- every mirrored pair of entries of `_ndim_event_synchronization` is a `GoodPairF` -/
+theorem esMatrix_pairF (ts : List Rat) (E : Mat Bool) (n : Nat) (tm : Option Rat) (lag : Rat)
+    (hts : List.Pairwise (· < ·) ts) (hlen : ts.length ≤ 2 ^ 24)
+    (i j : Nat) (hi : i < n) (hj : j < n) :
+    GoodPairF ((esMatrix ts E n tm lag).get none i j) ((esMatrix ts E n tm lag).get none j i) := by
+  rcases Nat.lt_trichotomy i j with hij | hij | hij
+  · obtain ⟨e1, e2⟩ := esMatrix_entry ts E n tm lag i j hij hj
+    rw [e1, e2]
+    exact esPairEntry_goodF ts ts _ _ tm lag hts hts hlen hlen
+  · subst hij
+    have : (esMatrix ts E n tm lag).get none i i = some (0, 1) := by
+      unfold esMatrix
+      rw [assemble_entry _ _ _ _ i i hi hi]
+      simp
+    rw [this]
+    exact goodPairF_zero
+  · obtain ⟨e1, e2⟩ := esMatrix_entry ts E n tm lag j i hij hi
+    rw [e1, e2]
+    exact goodPairF_symm (esPairEntry_goodF ts ts _ _ tm lag hts hts hlen hlen)
+
+/-- entry `[i,j]` of the float64 analysis matrix: the helper of the chosen symmetrisation applied
+to the doubles stored at `[i,j]` and `[j,i]` by `_ndim_event_synchronization` -/
+theorem esAnalysisF64_entry (ts : List Rat) (E : Mat Bool) (n : Nat) (tm : Option Rat) (lag : Rat)
+    (s : Symm) (i j : Nat) (hi : i < n) (hj : j < n) :
+    (esAnalysisF64 ts E n tm lag s).get none i j
+      = symmOpF64N s (esEntryF64 ((esMatrix ts E n tm lag).get none i j))
+          (esEntryF64 ((esMatrix ts E n tm lag).get none j i)) := by
+  unfold esAnalysisF64
+  rw [symmetrize_entry n none none _ _ i j hi hj,
+    mat_get_map' _ esEntryF64 none none rfl, mat_get_map' _ esEntryF64 none none rfl]
+
+/-- **value of every entry of the float64 ES analysis matrix**: NaN (a series of the pair has no
+event), or the float helper applied to the two doubles `fl(a / fl(√m))`, `fl(b / fl(√m))` of the
+pair, both of which lie in `[0,1]` -/
+theorem esAnalysisF64_value (ts : List Rat) (E : Mat Bool) (n : Nat) (tm : Option Rat) (lag : Rat)
+    (s : Symm) (hts : List.Pairwise (· < ·) ts) (hlen : ts.length ≤ 2 ^ 24)
+    (i j : Nat) (hi : i < n) (hj : j < n) :
+    ((esAnalysisF64 ts E n tm lag s).get none i j = none ∧
+      (esAnalysis ts E n tm lag s).get none i j = none) ∨
+    ∃ a b m, (esMatrix ts E n tm lag).get none i j = some (a, m) ∧
+      (esMatrix ts E n tm lag).get none j i = some (b, m) ∧
+      (esAnalysisF64 ts E n tm lag s).get none i j
+        = some (symmOpF64 s (strengthF64 a m) (strengthF64 b m)) ∧
+      (esAnalysis ts E n tm lag s).get none i j = some (symmOp s a b, m) ∧
+      (0 ≤ strengthF64 a m ∧ strengthF64 a m ≤ 1) ∧
+      (0 ≤ strengthF64 b m ∧ strengthF64 b m ≤ 1) := by
+  rw [esAnalysisF64_entry ts E n tm lag s i j hi hj, esAnalysis_entry ts E n tm lag s i j hi hj]
+  rcases esMatrix_pairF ts E n tm lag hts hlen i j hi hj with
+    ⟨h1, h2⟩ | ⟨a, b, m, h1, h2, hm, ha, hb⟩
+  · left
+    rw [h1, h2]
+    cases s <;> exact ⟨rfl, rfl⟩
+  · right
+    refine ⟨a, b, m, h1, h2, ?_, ?_, strengthF64_range a m ha.1 ha.2.2 ha.2.1 hm.1 hm.2,
+      strengthF64_range b m hb.1 hb.2.2 hb.2.1 hm.1 hm.2⟩
+    · rw [h1, h2]
+      exact symmOpF64N_some s _ _
+    · rw [h1, h2]
+      cases s <;> rfl
+
+/-- **float-level range of the ES analysis matrix**: under `directed`, `mean`, `max`, `min`
+every entry of the matrix of doubles that is not NaN lies in `[0,1]` -/
+theorem esAnalysisF64_range (ts : List Rat) (E : Mat Bool) (n : Nat) (tm : Option Rat) (lag : Rat)
+    (s : Symm) (hs : s = .directed ∨ s = .mean ∨ s = .max ∨ s = .min)
+    (hts : List.Pairwise (· < ·) ts) (hlen : ts.length ≤ 2 ^ 24)
+    (i j : Nat) (hi : i < n) (hj : j < n) (v : Rat)
+    (hv : (esAnalysisF64 ts E n tm lag s).get none i j = some v) : 0 ≤ v ∧ v ≤ 1 := by
+  rcases esAnalysisF64_value ts E n tm lag s hts hlen i j hi hj with
+    ⟨h, _⟩ | ⟨a, b, m, _, _, hval, _, ha, hb⟩
+  · rw [h] at hv; cases hv
+  · rw [hval] at hv
+    injection hv with hv
+    subst hv
+    exact symmOpF64_range s hs _ _ ha hb
+
+/-- `symmetric` entries of the matrix of doubles lie in `[0,2]`, `antisym` entries in `[-1,1]` -/
+theorem esAnalysisF64_range_sum_diff (ts : List Rat) (E : Mat Bool) (n : Nat) (tm : Option Rat)
+    (lag : Rat) (hts : List.Pairwise (· < ·) ts) (hlen : ts.length ≤ 2 ^ 24)
+    (i j : Nat) (hi : i < n) (hj : j < n) (v : Rat) :
+    ((esAnalysisF64 ts E n tm lag .symmetric).get none i j = some v → 0 ≤ v ∧ v ≤ 2) ∧
+    ((esAnalysisF64 ts E n tm lag .antisym).get none i j = some v → -1 ≤ v ∧ v ≤ 1) := by
+  constructor
+  · intro hv
+    rcases esAnalysisF64_value ts E n tm lag .symmetric hts hlen i j hi hj with
+      ⟨h, _⟩ | ⟨a, b, m, _, _, hval, _, ha, hb⟩
+    · rw [h] at hv; cases hv
+    · rw [hval] at hv
+      injection hv with hv
+      subst hv
+      exact (symmOpF64_sum_diff_range _ _ ha hb).1
+  · intro hv
+    rcases esAnalysisF64_value ts E n tm lag .antisym hts hlen i j hi hj with
+      ⟨h, _⟩ | ⟨a, b, m, _, _, hval, _, ha, hb⟩
+    · rw [h] at hv; cases hv
+    · rw [hval] at hv
+      injection hv with hv
+      subst hv
+      exact (symmOpF64_sum_diff_range _ _ ha hb).2
+
+/-- `symmetric`, `mean`, `max`, `min` give a symmetric matrix of doubles (same bits at `[i,j]`
+and `[j,i]`); `antisym` gives an exactly antisymmetric one (NaN pattern symmetric) -/
+theorem esAnalysisF64_symmetric (ts : List Rat) (E : Mat Bool) (n : Nat) (tm : Option Rat)
+    (lag : Rat) (hts : List.Pairwise (· < ·) ts) (hlen : ts.length ≤ 2 ^ 24)
+    (i j : Nat) (hi : i < n) (hj : j < n) :
+    (∀ s : Symm, (s = .symmetric ∨ s = .mean ∨ s = .max ∨ s = .min) →
+      (esAnalysisF64 ts E n tm lag s).get none i j = (esAnalysisF64 ts E n tm lag s).get none j i) ∧
+    (esAnalysisF64 ts E n tm lag .antisym).get none i j
+      = ((esAnalysisF64 ts E n tm lag .antisym).get none j i).map (fun v => -v) := by
+  constructor
+  · intro s hs
+    rw [esAnalysisF64_entry ts E n tm lag s i j hi hj, esAnalysisF64_entry ts E n tm lag s j i hj hi]
+    rcases esMatrix_pairF ts E n tm lag hts hlen i j hi hj with
+      ⟨h1, h2⟩ | ⟨a, b, m, h1, h2, _, _, _⟩
+    · rw [h1, h2]
+    · rw [h1, h2]
+      simp only [esEntryF64, symmOpF64N_some]
+      rw [symmOpF64_comm s hs]
+  · rw [esAnalysisF64_entry ts E n tm lag .antisym i j hi hj,
+      esAnalysisF64_entry ts E n tm lag .antisym j i hj hi]
+    rcases esMatrix_pairF ts E n tm lag hts hlen i j hi hj with
+      ⟨h1, h2⟩ | ⟨a, b, m, h1, h2, _, _, _⟩
+    · rw [h1, h2]; rfl
+    · rw [h1, h2]
+      simp only [esEntryF64, symmOpF64N_some, Option.map_some]
+      rw [symmOpF64_antisym]
+
+/-- **the float matrix against the exact table**: every non-NaN entry is within `2⁻⁵³` relative of
+the exact table entry of the two stored doubles (one rounding for `symmetric` / `antisym` /
+`mean`, none for `directed` / `max` / `min`), and the NaN pattern is that of the exact analysis -/
+theorem esAnalysisF64_accuracy (ts : List Rat) (E : Mat Bool) (n : Nat) (tm : Option Rat)
+    (lag : Rat) (s : Symm) (hts : List.Pairwise (· < ·) ts) (hlen : ts.length ≤ 2 ^ 24)
+    (i j : Nat) (hi : i < n) (hj : j < n) :
+    ((esAnalysisF64 ts E n tm lag s).get none i j = none ↔
+      (esAnalysis ts E n tm lag s).get none i j = none) ∧
+    ∀ v, (esAnalysisF64 ts E n tm lag s).get none i j = some v →
+      ∃ a b m, (esAnalysis ts E n tm lag s).get none i j = some (symmOp s a b, m) ∧
+        |v - symmOp s (strengthF64 a m) (strengthF64 b m)|
+          ≤ |symmOp s (strengthF64 a m) (strengthF64 b m)| / 2 ^ 53 := by
+  rcases esAnalysisF64_value ts E n tm lag s hts hlen i j hi hj with
+    ⟨h1, h2⟩ | ⟨a, b, m, _, _, hval, hex, _, _⟩
+  · refine ⟨by simp [h1, h2], ?_⟩
+    intro v hv
+    rw [h1] at hv; cases hv
+  · refine ⟨by rw [hval, hex]; simp, ?_⟩
+    intro v hv
+    rw [hval] at hv
+    injection hv with hv
+    subst hv
+    exact ⟨a, b, m, hex, symmOpF64_err s _ _⟩
+
+/-- **float-level exchange and affine invariance of one call**: the two doubles are exchanged when
+the series are exchanged (lag negated), and are *bit-identical* after `t ↦ k·t + c`
+(`k > 0`, lag and window rescaled) — the counts and the norm do not change (`es_exchange`,
+`es_affine`), so neither do `np.sqrt` and the quotient -/
+theorem es_f64_exchange_affine (ex ey : List Rat) (tm : Option Rat) (lag : Rat) :
+    esF64 (es ey ex tm (-lag)) = ((esF64 (es ex ey tm lag)).2, (esF64 (es ex ey tm lag)).1) ∧
+    ∀ k c : Rat, 0 < k →
+      esF64 (es (ex.map (affT k c)) (ey.map (affT k c)) (tm.map (k * ·)) (k * lag))
+        = esF64 (es ex ey tm lag) := by
+  constructor
+  · rw [es_exchange]
+    cases es ex ey tm lag <;> rfl
+  · intro k c hk
+    rw [es_affine k c hk]
+
+/-- non-vacuity: a float matrix with proper entries; the `antisym` one has a negative entry -/
+example : (esAnalysisF64 (indexTimes 6)
+    [[true, true, false], [true, false, true], [true, true, true], [false, true, true],
+     [true, true, false], [true, true, true]] 3 none 0 .mean).get none 0 1 ≠ none := by
+  decide +kernel
+
 
 end Pyunicorn.Events
